@@ -21,6 +21,7 @@ type agg struct {
 	wall                                      float64
 	// conc
 	episodes, calls, switches, preempt, blocked, gcs, concurrent int
+	spawned, leaked                                              int
 	families, overlap, fnCalls                                   map[string]int
 	schedSigs                                                    map[string]bool
 }
@@ -242,6 +243,8 @@ func (a *agg) addConc(s map[string]interface{}) {
 	a.preempt += int(num(s, "preemptions_inside_op"))
 	a.blocked += int(num(s, "blocked_yields"))
 	a.gcs += int(num(s, "forced_gcs"))
+	a.spawned += int(num(s, "library_goroutines"))
+	a.leaked += int(num(s, "leaked_library_goroutines"))
 	a.concurrent += int(num(s, "episodes_with_overlap"))
 	addMap(a.families, s["families"])
 	addMap(a.overlap, s["overlap"])
@@ -273,27 +276,29 @@ func (a *agg) evidenceConc(tier string, seed uint64, spec propSpec, cfgs []strin
 	a.fired["forced_gc"] = a.gcs
 	a.fired["preemption_inside_operation"] = a.preempt
 	cov := map[string]interface{}{
-		"evaluations":                     a.episodes,
-		"distinct_nontrivial":             len(a.schedSigs),
-		"rule":                            "An evaluation is one episode: 1..8 simulated caller goroutines, each with a list of real library calls on shared read-only inputs, run one at a time under a seeded scheduler (families: random slices, lockstep twins, PCT priorities, sequential histories) that preempts at instrumented points inside the library; the Go race detector, kept blind to the scheduler, judges the library's own synchronisation, and every outcome is compared with the same call executed alone in a fresh process. A schedule signature is the hash of the ordered (client, function, decile of the call's solo length) at each context switch; distinct_nontrivial counts distinct signatures of episodes in which a client was resumed while another client was inside an unfinished library call.",
-		"samples":                         a.samples,
-		"episodes_with_overlapping_calls": a.concurrent,
-		"library_calls":                   a.calls,
-		"calls_per_function":              a.fnCalls,
-		"context_switches":                a.switches,
-		"preemptions_inside_operations":   a.preempt,
-		"blocked_yields_on_shim_locks":    a.blocked,
-		"schedule_families":               a.families,
-		"overlap_matrix":                  a.overlap,
-		"simulated_steps":                 a.points,
-		"simulated_time_note":             "the library has no clock; simulated time is counted in logical steps (instrumentation points executed inside library calls)",
-		"episodes_per_hour":               int(perHour),
-		"fault_kinds_fired":               a.fired,
-		"episodes_per_configuration":      a.perConfig,
-		"solo_reference_pool":             npool,
-		"instrumentation_points":          b.Points,
-		"race_detector":                   "Go race detector, GORACE=" + gorace + "; canary (unsynchronised write through the same baton) reported, mutex-protected canary silent",
-		"determinism_selftest":            "first episodes of worker 0 executed twice under different GOMAXPROCS: identical traces",
+		"evaluations":                       a.episodes,
+		"distinct_nontrivial":               len(a.schedSigs),
+		"rule":                              "An evaluation is one episode: 1..8 simulated caller goroutines, each with a list of real library calls on shared read-only inputs, run one at a time under a seeded scheduler (families: random slices, lockstep twins, PCT priorities, sequential histories) that preempts at instrumented points inside the library; the Go race detector, kept blind to the scheduler, judges the library's own synchronisation, and every outcome is compared with the same call executed alone in a fresh process. A schedule signature is the hash of the ordered (client, function, decile of the call's solo length) at each context switch; distinct_nontrivial counts distinct signatures of episodes in which a client was resumed while another client was inside an unfinished library call.",
+		"samples":                           a.samples,
+		"episodes_with_overlapping_calls":   a.concurrent,
+		"library_calls":                     a.calls,
+		"calls_per_function":                a.fnCalls,
+		"context_switches":                  a.switches,
+		"preemptions_inside_operations":     a.preempt,
+		"blocked_yields_on_shim_locks":      a.blocked,
+		"goroutines_started_by_the_library": a.spawned,
+		"goroutines_leaked_by_the_library":  a.leaked,
+		"schedule_families":                 a.families,
+		"overlap_matrix":                    a.overlap,
+		"simulated_steps":                   a.points,
+		"simulated_time_note":               "the library has no clock; simulated time is counted in logical steps (instrumentation points executed inside library calls)",
+		"episodes_per_hour":                 int(perHour),
+		"fault_kinds_fired":                 a.fired,
+		"episodes_per_configuration":        a.perConfig,
+		"solo_reference_pool":               npool,
+		"instrumentation_points":            b.Points,
+		"race_detector":                     "Go race detector, GORACE=" + gorace + "; canary (unsynchronised write through the same baton) reported, mutex-protected canary silent",
+		"determinism_selftest":              "first episodes of worker 0 executed twice under different GOMAXPROCS: identical traces",
 		"real_vs_stub": map[string]interface{}{
 			"real": []string{"ed25519, extra/x25519, internal/* of /repo's working tree (instrumented copy, incl. the amd64 assembly selector in the default configuration)", "crypto/sha512", "golang.org/x/crypto/curve25519", "Go runtime, allocator, GC, real OS threads"},
 			"stub": []string{"the Go scheduler's choice of which caller runs -> seeded baton", "io.Reader arguments and crypto/rand.Reader -> simulated entropy device", "sync -> shim over the real primitives (inactive unless the tree imports sync)"},
